@@ -31,14 +31,17 @@ def gen_cases(ctx):
     for _ in range(7 if ctx.quick else 60):
         env = si.make_env(rng, N=rng.randint(5, 11))
         out.append({"k": "sim", "env": env, "numrec": rng.choice([1, 2, 2, 3]), "seed": rng.randrange(10**6)})
-    for _ in range(4 if ctx.quick else 40):
+    for ci in range(4 if ctx.quick else 40):
         N = rng.randint(6, 14)
         rows = [[0, 3.0, 3.0, 20.0]] + [[rng.randrange(0, N) * 600, 3.0 + rng.randint(0, 8) / 4, 3.0 + rng.randint(0, 4) / 4, rng.choice([20.0, 70.0])]
                                         for _ in range(rng.randint(0, 3))]
         rows.sort(key=lambda r: r[0])
         out.append({"k": "impl", "sc": {"N": N, "p": rng.choice([1, 2, 3]), "numrec": rng.choice([1, 2, 3]), "dt": 600,
                                          "adv": rng.choice(["EF", "RK2", "RK4"]), "lifetime": rng.choice([None, 1800, 3000]),
-                                         "rows": rows, "continuous": rng.choice([None, None, 600, 1200]), "u": rng.choice([0.1, 0.3, 0.6])},
+                                         "rows": rows, "continuous": rng.choice([None, None, 600, 1200]), "u": rng.choice([0.1, 0.3, 0.6]),
+                                         # output reference time: the start, before it, inside the run, after its end, or the
+                                         # default (None: each run's own start, so the restarted run has a different one)
+                                         "reference": [N * 600 + 7200, (N // 2) * 600 + 300, None, -86400, 0][ci % 5]},
                     "seed": rng.randrange(10**6)})
     return out
 
